@@ -1,19 +1,29 @@
 #!/bin/bash
-# Applies every kept seeded change to /repo in turn, runs the seeded property's
-# quick check, records the outcome, and restores /repo. Output: tab-separated
-# id, rc, first failing obligation (or "-").
-cd /verif
+# Applies every kept seeded change in turn, runs the seeded property's quick check, records the outcome and
+# undoes the change. Output: tab-separated name, rc, number of failing obligations, first failing obligation.
 # usage: run_seeds.sh [glob]   (default: every seed; e.g. 'C*-r2')
+# By default the change is applied to /repo itself (git apply … ; git checkout -- .). With SEEDS_WT=1 it is
+# applied to a scratch worktree of /repo's HEAD under /tmp instead (used while another run reads /repo).
+cd /verif
+target=/repo
+if [ -n "${SEEDS_WT:-}" ]; then
+  target=/tmp/wtchk
+  git -C /repo worktree remove --force $target >/dev/null 2>&1
+  git -C /repo worktree add -f --detach $target HEAD >/dev/null 2>&1 || { echo "cannot create $target"; exit 2; }
+  export VERIF_REPO=$target
+fi
 for d in seeded/${1:-C*}/; do
   name=$(basename $d); id=${name%%-*}
-  if ! git -C /repo apply --check /verif/$d/patch.diff 2>/dev/null; then
+  if ! git -C $target apply --check /verif/$d/patch.diff 2>/dev/null; then
     echo -e "$name\tNOAPPLY\t-"; continue
   fi
-  git -C /repo apply /verif/$d/patch.diff
+  git -C $target apply /verif/$d/patch.diff
   out=$(./run.sh $id quick 2>&1); rc=$?
-  git -C /repo checkout -- . >/dev/null 2>&1
-  first=$(echo "$out" | grep -E "VIOLATED|UNDECIDED" | head -1 | sed -E 's/^ *(VIOLATED|UNDECIDED) +[^ ]* +//' | cut -c1-160)
+  git -C $target checkout -- . >/dev/null 2>&1
+  first=$(echo "$out" | grep -E "VIOLATED|UNDECIDED" | grep -v BASELINE | head -1 | sed -E 's/^ *(VIOLATED|UNDECIDED) +[^ ]* +//' | cut -c1-160)
+  [ -z "$first" ] && first=$(echo "$out" | grep -E "VIOLATED|UNDECIDED" | head -1 | sed -E 's/^ *(VIOLATED|UNDECIDED) +[^ ]* +//' | cut -c1-160)
   n=$(echo "$out" | grep -cE "VIOLATED|UNDECIDED")
   echo -e "$name\t$rc\t$n\t${first:--}"
 done
-git -C /repo status --short | head -3
+git -C $target status --short | head -3
+[ -n "${SEEDS_WT:-}" ] && git -C /repo worktree remove --force $target >/dev/null 2>&1
